@@ -578,7 +578,7 @@ impl<'a> Gen<'a> {
                 y -= p.w_sync;
                 if y < p.w_reopen {
                     let c = if p.random_bufs {
-                        Cfg::random(&mut self.rng, false)
+                        Cfg::random_reopen(&mut self.rng)
                     } else {
                         Cfg { buckets: Cfg::random_buckets(&mut self.rng, false), ..cfg }
                     };
